@@ -71,16 +71,26 @@ def gen_config(rng, prop, tier="quick"):
         else:
             st["sig"] = rng.choice(ALL_SIGS)
     # class layout
-    layout = rng.choice(["single", "single", "base+leaf", "base+mix+leaf"])
-    classes = {"single": ["Leaf"], "base+leaf": ["Base", "Leaf"], "base+mix+leaf": ["Base", "Mix", "Leaf"]}[layout]
+    layout = rng.choice(["single", "single", "base+leaf", "base+mix+leaf", "diamond"])
+    classes = {"single": ["Leaf"], "base+leaf": ["Base", "Leaf"], "base+mix+leaf": ["Base", "Mix", "Leaf"],
+               "diamond": ["Root", "Left", "Right", "Leaf"]}[layout]
+    names_all = [x["name"] for x in states if x["kind"] != "default"]
     for st in states:
         st["cls"] = rng.choice(classes)
         st["base_sig"] = None
-        if len(classes) > 1 and st["cls"] == "Base" and rng.random() < 0.3:
-            # same-kind override in the leaf; the leaf's version is the one that must run
+        st["base_over"] = None
+        low, high = ("Root", "Right") if layout == "diamond" else ("Base", "Leaf")
+        if len(classes) > 1 and st["cls"] == low and rng.random() < (0.5 if layout == "diamond" else 0.3):
+            # same-kind redefinition further down; that version is the one that must run.  In the diamond the
+            # redefinition sits in the base listed SECOND (Leaf(Left, Right)): Python's MRO still prefers it
+            # over what Left merely inherits from Root.
             st["base_sig"] = rng.choice(ALL_SIGS)
-            st["cls"] = "Leaf"
-            st["defined_in"] = ["Base", "Leaf"]
+            st["cls"] = high
+            st["defined_in"] = [low, high]
+            if st["kind"] != "default" and rng.random() < 0.6:
+                # the overridden (dead) declaration differs in the flags that matter
+                st["base_over"] = {"must_finish": not st["must_finish"],
+                                   "next": (rng.choice(names_all + [None]) if st["kind"] == "timed" else None)}
         else:
             st["defined_in"] = [st["cls"]]
         st["next_by_obj"] = rng.random() < 0.3
@@ -89,6 +99,9 @@ def gen_config(rng, prop, tier="quick"):
         "classes": classes, "done_in": rng.choice(classes), "cname": rng.choice(["c0", "shooter", "Auto Mode"]) if asm else rng.choice(["c0", "shooter", "arm_ctl"]),
         "boot_us": (rng.choice([0, 1, 64, 640, 64000, 230400]) * GRID_US) if dyadic else rng.choice([0, 20000, 1234567, 3600 * 10**6 + 17]),
         "pre_nt": {},
+        "layout": layout,
+        "verbose": rng.random() < 0.25,               # VERBOSE_LOGGING on (the machine logs through self.logger)
+        "base_first": len(classes) > 1 and rng.random() < 0.4,   # an object of the base class is created before the leaf's
     }
     for st in states:
         if st["kind"] == "timed" and rng.random() < 0.12:
@@ -200,7 +213,7 @@ def generate(seed, prop, tier, index=0):
     ops = []
     engaged_prev = rng.random() < 0.5
     # a second live machine of the same class, driven by its own history between the first one's ops
-    twin = (not cfg["asm"]) and rng.random() < 0.2
+    twin = rng.random() < 0.2
     cfg["twin"] = twin
     model_b = _mk_model(dict(cfg, pre_nt={}), clock) if twin else None
 
@@ -237,8 +250,19 @@ def generate(seed, prop, tier, index=0):
             if rng.random() < style["p_restart"]:
                 emit(["restart"])
                 emit(["enable"])
+            if rng.random() < 0.02:
+                emit(["ntcs", rng.choice(names + ["", "bogus"])])
             emit(["iter", _gen_acts(rng, cfg, style)])
-            emit(["adv", _pick_dt(rng, cfg, style, model, clock.us)])
+            if twin:
+                # a second live autonomous machine of the same class with its own protocol history
+                if not model_b.asm_engaged and rng.random() < 0.5:
+                    if model_b.ever_enabled:
+                        emit_b(["disable"])
+                    emit_b(["enable"])
+                elif rng.random() < 0.06:
+                    emit_b(["disable"])
+                emit_b(["iter", _gen_acts(rng, cfg, style)])
+            emit(["adv", _pick_dt(rng, cfg, style, model_b if twin and rng.random() < 0.4 else model, clock.us)])
         return {"engine": ENGINE, "property": prop, "seed": seed, "config": cfg, "ops": _sanitize_asm(ops)}
 
     for _ in range(n_iter):
@@ -261,10 +285,14 @@ def generate(seed, prop, tier, index=0):
                 emit(rng.choice([["done"], ["disable"]]))
                 if rng.random() < 0.5:
                     emit(["engage", None, False, False])
+        if rng.random() < 0.02:
+            emit(["ntcs", rng.choice(names + ["", "bogus"])])
+        b_engages_first = twin and rng.random() < 0.5      # the robot's order: every engage() first, then every execute()
+        if b_engages_first and rng.random() < 0.7:
+            emit_b(["engage", None, False, False])
         emit(["exec", _gen_acts(rng, cfg, style)])
         if twin:
-            r = rng.random()
-            if r < 0.7:
+            if not b_engages_first and rng.random() < 0.7:
                 emit_b(["engage", None, False, False])
             if rng.random() < 0.1:
                 emit_b(rng.choice([["done"], ["disable"]]))
@@ -276,18 +304,19 @@ def generate(seed, prop, tier, index=0):
 
 
 def _sanitize_asm(ops):
-    """The autonomous protocol the selector guarantees: never on_enable twice without on_disable."""
-    out, enabled = [], False
-    for op in ops:
+    """The autonomous protocol the selector guarantees: never on_enable twice without on_disable (per machine)."""
+    out, enabled = [], {0: False, 1: False}
+    for op0 in ops:
+        k, op = (1, op0[1]) if op0[0] == "@" else (0, op0)
         if op[0] == "enable":
-            if enabled:
-                out.append(["disable"])
-            enabled = True
+            if enabled[k]:
+                out.append(["disable"] if k == 0 else ["@", ["disable"]])
+            enabled[k] = True
         elif op[0] == "disable":
-            enabled = False
+            enabled[k] = False
         elif op[0] == "restart":
-            enabled = False
-        out.append(op)
+            enabled[k] = False
+        out.append(op0)
     return out
 
 
@@ -320,6 +349,8 @@ def _apply_model(model, clock, cfg, op):
     elif k == "ntdur":
         if op[1] in model.dur:
             model.dur[op[1]] = op[2]
+    elif k == "ntcs":
+        model.cs = op[1]          # the topic shows what the dashboard wrote until the machine writes it again
     elif k == "restart":
         model.restart()
 
@@ -333,24 +364,27 @@ def build_source(cfg):
         for c in st["defined_in"]:
             by_cls[c].append(st)
     lines = []
+    has = set(cfg["classes"])
+    parents_of = {"Root": [base], "Left": ["Root"], "Right": ["Root"], "Base": [base], "Mix": ["StateMachine"]}
+    if "Root" in has:
+        parents_of["Leaf"] = ["Left", "Right"]
+    else:
+        parents_of["Leaf"] = [p for p in ("Mix", "Base") if p in has] + ([] if "Base" in has else [base])
     for c in cfg["classes"]:
-        if c == "Base":
-            hdr = f"class Base({base}):"
-        elif c == "Mix":
-            hdr = "class Mix(StateMachine):"
-        else:
-            parents = [p for p in ("Mix", "Base") if p in cfg["classes"]]
-            if "Base" not in cfg["classes"]:
-                parents.append(base)
-            hdr = f"class Leaf({', '.join(parents)}):"
+        hdr = f"class {c}({', '.join(parents_of[c])}):"
         lines.append(hdr)
         if c == "Leaf" and cfg["asm"]:
             lines.append(f"    MODE_NAME = {cfg['cname']!r}")
+        if c == "Leaf" and cfg.get("verbose") and not cfg["asm"]:
+            lines.append("    VERBOSE_LOGGING = True")
         defined = set()
         for st in by_cls[c]:
             nm = st["name"]
-            sig = st["sig"] if (c == st["cls"]) else st["base_sig"]
+            live = c == st["cls"]
+            sig = st["sig"] if live else st["base_sig"]
             is_first = nm == cfg["first"]
+            if not live and st.get("base_over"):
+                st = dict(st, must_finish=st["base_over"]["must_finish"], next=st["base_over"]["next"])
             if st["kind"] == "timed":
                 nxt = st.get("next")
                 if nxt is None:
@@ -377,7 +411,7 @@ def build_source(cfg):
             lines.append("    def done(self):")
             lines.append("        self._sim.done_called(self)")
             lines.append("        super().done()")
-        if not by_cls[c] and c != cfg["done_in"] and not (c == "Leaf" and cfg["asm"]):
+        if not by_cls[c] and c != cfg["done_in"] and not (c == "Leaf" and (cfg["asm"] or cfg.get("verbose"))):
             lines.append("    pass")
         lines.append("")
     return "\n".join(lines)
@@ -480,6 +514,7 @@ def execute(plan, trace=False):
                 if nm in c.pubs:
                     c.pubs[nm].set(v)
         c.cs_sub = ntcore.StringTopic(nt.getTopic(f"{base_key}/current_state")).subscribe("<unset>")
+        c.cs_pub = ntcore.StringTopic(nt.getTopic(f"{base_key}/current_state")).publish()
         c.model = _mk_model(cfg if k == 0 else dict(cfg, pre_nt={}), vclock)
         c.asm_enabled_once = False
         c.history = []
@@ -492,10 +527,6 @@ def execute(plan, trace=False):
         setup_tunables(c.inst, c.cname, prefix)
         H.ctx_of[id(c.inst)] = c
 
-    ctxs = [make_ctx(0)] + ([make_ctx(1)] if cfg.get("twin") else [])
-    for c in ctxs:
-        new_instance(c)
-
     probes = {}
     faults = {}
     states_seen, trans_seen, shape = set(), set(), []
@@ -505,6 +536,24 @@ def execute(plan, trace=False):
 
     def fault(k, n=1):
         faults[k] = faults.get(k, 0) + n
+
+    keep_alive = []
+    if cfg.get("base_first"):
+        # an object of the (concrete) base class exists before the first object of the leaf class
+        for bn in ("Base", "Root", "Right"):
+            B = ns.get(bn)
+            if B is not None:
+                try:
+                    b = B()
+                    b.logger = logging.getLogger("basefirst")
+                    setup_tunables(b, "basefirst_" + bn.lower(), prefix)
+                    keep_alive.append(b)
+                    fault("base_class_instantiated_first")
+                except Exception:
+                    pass        # not instantiable on its own (no first state there): nothing to do
+    ctxs = [make_ctx(0)] + ([make_ctx(1)] if cfg.get("twin") else [])
+    for c in ctxs:
+        new_instance(c)
 
     def observe(c):
         return (bool(c.inst.is_executing), c.inst.current_state, c.cs_sub.get())
@@ -561,6 +610,9 @@ def execute(plan, trace=False):
                     if op[1] in c.pubs:
                         c.pubs[op[1]].set(op[2])
                         fault("nt_duration_write")
+                elif k == "ntcs":
+                    c.cs_pub.set(op[1])
+                    fault("dashboard_scribbles_on_current_state")
                 elif k == "restart":
                     new_instance(c)
                     inst = c.inst
@@ -733,7 +785,7 @@ def _compare(cfg, sdef, k, mev, iev, m_after, i_after, exc, exact, pre_running):
     i_done = any(e[0] == "DONE" for e in iev)
     if m_done and pre_running and not i_done:
         return ("done_at_stop", "the machine stopped running regular states in this step but done() was not invoked")
-    if k in ("exec", "iter", "done", "disable", "restart"):
+    if k in ("exec", "iter", "done", "disable", "restart", "ntcs"):
         if i_after[0] != m_after[0]:
             return ("is_executing", f"is_executing expected {m_after[0]}, got {i_after[0]}")
         if i_after[1] != m_after[1]:
